@@ -23,17 +23,17 @@ func init() {
 }
 
 type JSONPayload struct {
-	State    string     `json:"state"`
-	Mode     string     `json:"mode"` // C06 | C07 | C08
-	Spec     *spec.Spec `json:"spec"`
-	SpecYAML string     `json:"specYAML"`
-	Type     string     `json:"type"` // component schema name == Go type name
-	Cap      int        `json:"cap"`
+	State       string     `json:"state"`
+	Mode        string     `json:"mode"` // C06 | C07 | C08
+	Spec        *spec.Spec `json:"spec"`
+	SpecYAML    string     `json:"specYAML"`
+	Type        string     `json:"type"` // component schema name == Go type name
+	Cap         int        `json:"cap"`
 	DiscProp    string     `json:"discProp,omitempty"`
 	VariantKeys [][]string `json:"variantKeys,omitempty"`
 	Ambiguous   bool       `json:"ambiguous,omitempty"` // the state has an undiscriminated oneOf (variant choice may be ambiguous)
-	BodyOp   string     `json:"bodyOp,omitempty"` // path of a POST operation whose JSON body is the schema
-	RespOp   string     `json:"respOp,omitempty"` // path of a GET operation answering 200 with the schema
+	BodyOp      string     `json:"bodyOp,omitempty"`    // path of a POST operation whose JSON body is the schema
+	RespOp      string     `json:"respOp,omitempty"`    // path of a GET operation answering 200 with the schema
 }
 
 var tMarshaler = reflect.TypeOf((*json.Marshaler)(nil)).Elem()
@@ -97,6 +97,7 @@ func jsonProp(p *Pkg, _ *Pkg, payload json.RawMessage, res *Result) {
 			}
 		}
 		distinct := map[string]bool{}
+		var prevRaw, prevCopy []byte
 		for _, v := range vals {
 			res.Count("values", 1)
 			in := showVal(v)
@@ -118,6 +119,11 @@ func jsonProp(p *Pkg, _ *Pkg, payload json.RawMessage, res *Result) {
 				continue
 			}
 			distinct[string(out)] = true
+			// the bytes returned for the previous value must not change when the next value is encoded
+			if prevRaw != nil && string(prevRaw) != string(prevCopy) {
+				bad("output-aliased", "", in, "the bytes returned by the previous MarshalJSON call changed while this value was encoded: "+firstN(string(prevRaw), 120), "each encoding owns its bytes")
+			}
+			prevRaw, prevCopy = out, append([]byte{}, out...)
 			if !json.Valid(out) {
 				bad("invalid-json", invalidClass(v), in, string(out), "syntactically valid JSON")
 				continue
